@@ -18,11 +18,11 @@ def decodeTok (g : List Bytes) : Except String Tok :=
     | none => .error "bad token type"
   | _ => .error "bad token group"
 
-/-- `model.c04.num keepCSS2 lexeme` → `minify.Number/Decimal(lexeme, 0)` -/
+/-- `model.c04.num decimal lexeme` → `minify.Decimal(lexeme, 0)` / `minify.Number(lexeme, 0)` -/
 def numOp : Handler := fun args => do
   let css2 ← argBool args 0
   let s ← argChars args 1
-  .ok (charsToBytes (Model.Css.num ⟨css2⟩ s))
+  .ok (charsToBytes (if css2 then Model.CssNum.decimal0 s else Model.CssNum.number0 s))
 
 /-- `model.c04.decl keepCSS2 prop components` → `[S|N, bytes written after "prop:"]` -/
 def declOp : Handler := fun args => do
